@@ -394,10 +394,11 @@ def h_lists_paths_userdata(sx):
         if toml:
             lines = ['paths = ["features/a", "features/b"]', 'format = ["plain", "progress"]',
                      'outfiles = ["-", "o1.txt"]' if stdout_first else 'outfiles = ["o1.txt"]', 'name = ["n1", "n2", "n3"]',
-                     'tags = ["@x", "@y"]', "[tool.behave.userdata]", 'foo = "file"', 'keep = "k"', 'MixedCase = "V"', 'UPPER_NAME = "u"']
+                     'tags = ["@x", "@y"]', "[tool.behave.userdata]", 'foo = "file"', 'keep = "k"', 'MixedCase = "V"', 'UPPER_NAME = "u"',
+                     "ratio = 2.5", "count = 3"]        # (numbers written as TOML numbers: user data is text all the same)
         else:
             lines = ["paths = features/a\n  features/b", "format = plain\n  progress", "outfiles = -\n  o1.txt" if stdout_first else "outfiles = o1.txt", "name = n1\n  n2\n  n3",
-                     "tags = @x\n  @y", "[behave.userdata]", "foo = file", "keep = k", "MixedCase = V", "UPPER_NAME = u"]
+                     "tags = @x\n  @y", "[behave.userdata]", "foo = file", "keep = k", "MixedCase = V", "UPPER_NAME = u", "ratio = 2.5", "count = 3"]
         with_default_tags = bool(sx.bool("file_default_tags"))
         if with_default_tags:
             # default_tags is the fallback for "no tags given anywhere": the file's own tags (and the command line) win over it
@@ -446,6 +447,15 @@ def h_lists_paths_userdata(sx):
             sx.check(list(cfg.tags or []) == ["@x", "@y"], "C20.file-tags-win-over-default-tags",
                      detail=dict(det, got=cfg.tags, default_tags_in_file=with_default_tags))
         sx.check(cfg.userdata.get("keep") == "k", "C20.file-userdata-kept", detail=dict(det, got=dict(cfg.userdata)))
+        # values are text whatever the file format; the typed getters convert (or refuse)
+        sx.check(cfg.userdata.get("ratio") == "2.5" and cfg.userdata.get("count") == "3", "C20.file-userdata-kept",
+                 detail=dict(det, ratio=repr(cfg.userdata.get("ratio")), count=repr(cfg.userdata.get("count"))))
+        try:
+            r_ = ("value", cfg.userdata.getint("ratio"))
+        except ValueError:
+            r_ = ("ValueError",)
+        sx.check(r_ == ("ValueError",) and cfg.userdata.getfloat("ratio") == 2.5 and cfg.userdata.getint("count") == 3, "C20.getter-on-file-userdata",
+                 detail=dict(det, getint_ratio=repr(r_)))
         # names are case-sensitive and kept as written in the file
         sx.check(cfg.userdata.get("MixedCase") == "V" and "mixedcase" not in cfg.userdata, "C20.file-userdata-kept", detail=dict(det, got=dict(cfg.userdata)))
         sx.check(cfg.userdata.get("UPPER_NAME") == ("cmd" if cmd_define else "u") and "upper_name" not in cfg.userdata,
